@@ -79,8 +79,9 @@ def sid_tables(spec):
     skey, vkey = spec["state"]["key"], spec["version"]["key"]
     kp["__"]["{%s}" % skey] = "{%s:%s}" % (skey, closed(list(spec["state"]["values"])))
     kp["__"]["{%s}" % vkey] = "{%s:%s}" % (vkey, _pat(spec, vkey, "version", None))
-    for name, vals in spec["ext_sets"].items():
-        kp["__"]["{%s:%s}" % (L, name)] = "{%s:%s}" % (L, closed(vals))
+    for Lb in sorted({b.get("leaf_key", L) for b in spec["basetypes"]} | {L}):
+        for name, vals in spec["ext_sets"].items():
+            kp["__"]["{%s:%s}" % (Lb, name)] = "{%s:%s}" % (Lb, closed(vals))
     kp[ALL]["{%s}" % P] = "{%s:%s}" % (P, closed(list(spec["projects"])))
     for b in spec["basetypes"]:
         base = "/".join(["{%s}" % P, "{%s:%s}" % (T, b["code"])] + ["{%s}" % k for k, _, _ in b["chain"]])
@@ -92,9 +93,10 @@ def sid_tables(spec):
                 kp[sel]["{%s}" % k] = "{%s:%s}" % (k, closed(data))
             elif kind == "digit":
                 kp["__"]["{%s}" % k] = "{%s:%s}" % (k, _pat(spec, k, kind, data))
+        Lb = b.get("leaf_key", L)      # a basetype may have its own leaf key
         for lf in b["leaves"]:
             extra = "".join("/{%s}" % k for k, _, _ in lf["extra"])
-            templates[b["name"] + "__" + lf["type"]] = base + extra + "/{%s:%s}" % (L, lf["ext"])
+            templates[b["name"] + "__" + lf["type"]] = base + extra + "/{%s:%s}" % (Lb, lf["ext"])
             if lf.get("node_type"):
                 templates[b["name"] + "__" + lf["node_type"]] = base + extra
         state_type = b["name"] + "__" + b["chain"][-1][0]
@@ -107,11 +109,11 @@ def sid_tables(spec):
             for k, _, _ in lf["extra"]:
                 if k not in extras:
                     extras.append(k)
-        key_types[b["name"]] = chain_keys + extras + [L]
+        key_types[b["name"]] = chain_keys + extras + [Lb]
         narrowing[b["name"]] = "%s=~%s" % (T, b["code"])
     templates[P] = "{%s}" % P
     key_types[P] = [P]
-    leaf_keys = {b["name"]: L for b in spec["basetypes"]}
+    leaf_keys = {b["name"]: b.get("leaf_key", L) for b in spec["basetypes"]}
     leaf_keys[P] = L
     leaf_keys[None] = L
     kp = {k: v for k, v in kp.items() if v or k in ("__", ALL)}
@@ -153,7 +155,7 @@ def path_tables(spec):
                 levels.append((k, head + "/" + "/".join(dirs)))
         vdir = levels[-1][1]
         for lf in b["leaves"]:
-            fname = sep.join("{%s}" % k for k in lf["name"]) + ".{%s:%s}" % (L, lf["ext"])
+            fname = sep.join("{%s}" % k for k in lf["name"]) + ".{%s:%s}" % (b.get("leaf_key", L), lf["ext"])
             out[b["name"] + "__" + lf["type"]] = vdir + ("/" + lf["sub"] if lf["sub"] else "") + "/" + fname
         for k, p in reversed(levels):
             out[b["name"] + "__" + k] = p
@@ -394,7 +396,7 @@ def op_third_basetype(s):
     s["basetypes"].append({"name": "render", "code": "r", "folder": "RENDERS",
                            "chain": [("layer", "open", None), ("pass", "closed", ["beauty", "depth"]), (vk, "version", None), (sk, "state", None)],
                            "dirs": {"layer": "{layer}", "pass": "{pass}", vk: "{%s}" % vk},
-                           "constants": {},
+                           "constants": {}, "leaf_key": "task",      # own leaf key, spelled like a mid-level key of the other basetypes
                            "leaves": [{"type": "file", "ext": "movies", "sub": None, "name": ["layer", "pass", sk, vk], "extra": []}]})
     return s
 
@@ -460,7 +462,7 @@ def validate(spec):
     # leaf templates end with the leaf key
     for b in spec["basetypes"]:
         for lf in b["leaves"]:
-            if not full[b["name"] + "__" + lf["type"]].split("/")[-1].startswith("{" + spec["leaf_key"]):
+            if not full[b["name"] + "__" + lf["type"]].split("/")[-1].startswith("{" + b.get("leaf_key", spec["leaf_key"])):
                 errs.append("leaf template does not end with the leaf key")
     # same key set => disjoint concrete vocabularies at one position at least
     byk = {}
